@@ -233,9 +233,9 @@ func evGenPod(g *sim.Rng, name string, capMi int64) evPod {
 	case x < 32:
 		p.Policy = evPS(g.Pick("BECPUEvict", "{}", ""))
 	}
-	p.Req = g.PickI64(0, 500, 1000, 1000, 2000, 2000, 4000, 8000) * capMi / 32000
+	p.Req = g.PickI64(0, 500, 1000, 1000, 2000, 2000, 4000, 8000)
 	p.Native = g.Bool(0.06)
-	p.Used = g.PickI64(0, 125, 250, 500, 500, 1000, 1000, 2000, 4000) * capMi / 32000
+	p.Used = g.PickI64(0, 125, 250, 500, 500, 1000, 1000, 2000, 4000)
 	switch x := g.Intn(100); {
 	case x < 7:
 		p.Phase, p.Used = "Pending", 0
@@ -266,8 +266,8 @@ func (evEngine) Generate(p *sim.Plan, g *sim.Rng) {
 	cfg.IntervalS = g.PickInt(1, 2, 5, 10, 10, 30)
 	cfg.CoolS = g.PickInt(0, 4, 4, 20, 60, 150)
 	cfg.CollectS = g.PickInt(1, 1, 5, 10, 30)
-	cfg.CapMi = g.PickI64(1000, 4096, 10000, 65536)
-	cfg.Alloc = map[string]int64{"memory": cfg.CapMi * g.PickI64(80, 90, 100) / 100}
+	cfg.CapMi = g.PickI64(16000, 32000, 32000, 64000)
+	cfg.Alloc = map[string]int64{"cpu": cfg.CapMi * g.PickI64(80, 90, 100) / 100}
 	if x := g.Intn(10); x < 7 {
 		cfg.Alloc["batch"] = cfg.CapMi * g.PickI64(10, 20, 30, 50) / 100
 	} else if x < 8 {
@@ -286,21 +286,43 @@ func (evEngine) Generate(p *sim.Plan, g *sim.Rng) {
 		n = g.Range(5, 25)
 		nops = g.Range(8, 50)
 	}
-	var total int64
+	var total, beReq, beUsed int64
 	for i := 0; i < n; i++ {
 		pod := evGenPod(g, fmt.Sprintf("p%02d", i), cfg.CapMi)
+		if pod.QoS == "BE" && pod.Phase == "" && g.Bool(0.7) {
+			// BE pods mostly use a good part of what they request (so that the BE tier runs near its limit)
+			pod.Used = pod.Req * g.PickI64(1, 2, 2, 3, 4) / 4
+		}
 		cfg.Pods = append(cfg.Pods, pod)
 		total += pod.Used
+		if pod.QoS == "BE" && pod.Phase == "" {
+			beUsed += pod.Used
+			if !pod.Native && evSpecClass(&pod) == "batch" {
+				beReq += pod.Req
+			}
+		}
 	}
 	// node usage around the threshold
 	thr := int64(70)
-	if cfg.Thr.MemThr != nil {
-		thr = *cfg.Thr.MemThr
+	if cfg.Thr.CPUThr != nil {
+		thr = *cfg.Thr.CPUThr
 	}
 	want := cfg.CapMi * (thr + g.PickI64(-8, -2, 0, 0, 1, 2, 3, 5, 8, 12)) / 100
-	cfg.SysUsed = want - total
+	cfg.SysUsed = (want - total) / 125 * 125
 	if cfg.SysUsed < 0 {
 		cfg.SysUsed = 0
+	}
+	// the BE tier's real limit: around its usage (so that usage/limit is near the usage threshold) and mostly well below
+	// what the BE pods request (low satisfaction)
+	switch x := g.Intn(10); {
+	case x < 6:
+		cfg.BELimit = beUsed * g.PickI64(100, 100, 105, 110, 125, 150) / 100
+	case x < 8:
+		cfg.BELimit = beReq * g.PickI64(20, 40, 60, 80, 100) / 100
+	case x < 9:
+		cfg.BELimit = g.PickI64(0, 500, 999)
+	default:
+		cfg.BELimit = cfg.CapMi / 2
 	}
 
 	if g.Bool(0.2) {
@@ -339,10 +361,12 @@ func (evEngine) Generate(p *sim.Plan, g *sim.Rng) {
 			ticks += k
 			ops = append(ops, evOp{K: "tick", N: k})
 		case x < 60:
-			ops = append(ops, evOp{K: "usage", Pod: names[g.Intn(len(names))], V: cfg.CapMi * g.PickI64(0, 1, 2, 3, 5, 8, 10, 15, 20) / 100})
-		case x < 68:
-			d := cfg.CapMi * g.PickI64(-10, -5, -2, 1, 2, 3, 5, 10) / 100
+			ops = append(ops, evOp{K: "usage", Pod: names[g.Intn(len(names))], V: g.PickI64(0, 125, 250, 500, 1000, 2000, 4000, 8000)})
+		case x < 65:
+			d := cfg.CapMi * g.PickI64(-10, -5, -2, 1, 2, 3, 5, 10) / 100 / 125 * 125
 			ops = append(ops, evOp{K: "sys", V: d})
+		case x < 68:
+			ops = append(ops, evOp{K: "belimit", V: cfg.BELimit * g.PickI64(50, 80, 90, 110, 125, 200) / 100})
 		case x < 74:
 			added++
 			pod := evGenPod(g, fmt.Sprintf("n%02d", added), cfg.CapMi)
@@ -561,7 +585,7 @@ type evSim struct {
 	cs      *clientsetfake.Clientset
 	stop    chan struct{}
 	evictor *qosutil.Evictor
-	agent   *memoryEvictor
+	agent   *cpuEvictor
 
 	start         time.Time
 	lastCollect   time.Time
@@ -628,11 +652,11 @@ func evSpecClass(p *evPod) string {
 func evResOfClass(class string) corev1.ResourceName {
 	switch class {
 	case "batch":
-		return apiext.BatchMemory
+		return apiext.BatchCPU
 	case "mid":
-		return apiext.MidMemory
+		return apiext.MidCPU
 	}
-	return corev1.ResourceMemory
+	return corev1.ResourceCPU
 }
 
 func evEvPrio(p *evPod) int64 {
@@ -684,11 +708,11 @@ func (m *evMPod) build(now time.Time) {
 	}
 	res := evResOfClass(evSpecClass(p))
 	if p.Native {
-		res = corev1.ResourceMemory
+		res = corev1.ResourceCPU
 	}
 	rl := corev1.ResourceList{}
-	if p.Req > 0 || res != corev1.ResourceMemory {
-		rl[res] = *resource.NewQuantity(p.Req*evMi, resource.BinarySI)
+	if p.Req > 0 || res != corev1.ResourceCPU {
+		rl[res] = evQty(res, p.Req)
 	}
 	phase := corev1.PodPhase(p.Phase)
 	if p.Phase == "" {
@@ -730,26 +754,41 @@ func (s *evSim) addPod(spec evPod, now time.Time) {
 	s.order = append(s.order, spec.Name)
 }
 
+// evQty / evVal: a milli-CPU amount as a quantity of the named resource and back (batch-cpu and mid-cpu count
+// milli-CPUs as plain integers, cpu counts cores).
+func evQty(rn corev1.ResourceName, milli int64) resource.Quantity {
+	if rn == corev1.ResourceCPU {
+		return *resource.NewMilliQuantity(milli, resource.DecimalSI)
+	}
+	return *resource.NewQuantity(milli, resource.DecimalSI)
+}
+
+func evVal(rn corev1.ResourceName, q resource.Quantity) int64 {
+	if rn == corev1.ResourceCPU {
+		return q.MilliValue()
+	}
+	return q.Value()
+}
+
 func (s *evSim) buildNode() {
-	capQ := *resource.NewQuantity(s.cfg.CapMi*evMi, resource.BinarySI)
-	alloc := corev1.ResourceList{corev1.ResourceCPU: resource.MustParse("64")}
-	for _, k := range []string{"memory", "batch", "mid"} {
+	alloc := corev1.ResourceList{corev1.ResourceMemory: resource.MustParse("256Gi")}
+	for _, k := range []string{"cpu", "batch", "mid"} {
 		v, ok := s.cfg.Alloc[k]
 		if !ok {
 			continue
 		}
-		rn := corev1.ResourceMemory
+		rn := corev1.ResourceCPU
 		if k == "batch" {
-			rn = apiext.BatchMemory
+			rn = apiext.BatchCPU
 		} else if k == "mid" {
-			rn = apiext.MidMemory
+			rn = apiext.MidCPU
 		}
-		alloc[rn] = *resource.NewQuantity(v*evMi, resource.BinarySI)
+		alloc[rn] = evQty(rn, v)
 	}
 	s.si.node = &corev1.Node{
 		ObjectMeta: metav1.ObjectMeta{Name: "node0"},
 		Status: corev1.NodeStatus{
-			Capacity:    corev1.ResourceList{corev1.ResourceMemory: capQ, corev1.ResourceCPU: resource.MustParse("64")},
+			Capacity:    corev1.ResourceList{corev1.ResourceCPU: evQty(corev1.ResourceCPU, s.cfg.CapMi), corev1.ResourceMemory: resource.MustParse("256Gi")},
 			Allocatable: alloc,
 		},
 	}
@@ -759,13 +798,18 @@ func (s *evSim) buildSLO() {
 	t := s.thr
 	en := t.Enable
 	st := &slov1alpha1.ResourceThresholdStrategy{
-		Enable:                                 &en,
-		MemoryEvictThresholdPercent:            t.MemThr,
-		MemoryEvictLowerPercent:                t.MemLower,
-		MemoryAllocatableEvictThresholdPercent: t.AllocThr,
-		MemoryAllocatableEvictLowerPercent:     t.AllocLower,
-		EvictEnabledPriorityThreshold:          t.PrioThr,
-		AllocatableEvictPriorityThreshold:      t.AllocPrioThr,
+		Enable:                              &en,
+		CPUEvictThresholdPercent:            t.CPUThr,
+		CPUEvictLowerPercent:                t.CPULower,
+		CPUAllocatableEvictThresholdPercent: t.AllocThr,
+		CPUAllocatableEvictLowerPercent:     t.AllocLower,
+		CPUEvictBESatisfactionLowerPercent:  t.SatLower,
+		CPUEvictBESatisfactionUpperPercent:  t.SatUpper,
+		CPUEvictBEUsageThresholdPercent:     t.BEUsageThr,
+		CPUEvictTimeWindowSeconds:           t.Window,
+		CPUEvictPolicy:                      slov1alpha1.CPUEvictPolicy(t.Policy),
+		EvictEnabledPriorityThreshold:       t.PrioThr,
+		AllocatableEvictPriorityThreshold:   t.AllocPrioThr,
 	}
 	s.si.slo = &slov1alpha1.NodeSLO{ObjectMeta: metav1.ObjectMeta{Name: "node0"}, Spec: slov1alpha1.NodeSLOSpec{ResourceUsedThresholdWithBE: st}}
 }
@@ -805,19 +849,19 @@ func (s *evSim) startAgent() {
 	s.evictor = qosutil.NewEvictor(s.cs, &record.FakeRecorder{}, policyv1.SchemeGroupVersion.Version)
 	_ = s.evictor.Start(s.stop)
 	fc := framework.NewDefaultConfig()
-	fc.MemoryEvictIntervalSeconds = s.cfg.IntervalS
-	fc.MemoryEvictCoolTimeSeconds = s.cfg.CoolS
+	fc.CPUEvictIntervalSeconds = s.cfg.IntervalS
+	fc.CPUEvictCoolTimeSeconds = s.cfg.CoolS
 	mac := maframework.NewDefaultConfig()
 	mac.CollectResUsedInterval = time.Duration(s.cfg.CollectS) * time.Second
 	opt := &framework.Options{StatesInformer: s.si, MetricCache: s.mc, Config: fc, MetricAdvisorConfig: mac, KubeClient: s.cs}
-	m := New(opt).(*memoryEvictor)
+	m := New(opt).(*cpuEvictor)
 	m.Setup(&framework.Context{Evictor: s.evictor, OnlyEvictByAPI: true})
 	m.evictExecutor = &evExec{s: s, inner: m.evictExecutor}
 	if !m.Enabled() {
-		s.r.HarnessFail("memory evictor reports not enabled with features %v", s.cfg.Features)
+		s.r.HarnessFail("cpu evictor reports not enabled with features %v", s.cfg.Features)
 	}
 	s.agent = m
-	s.lastEvict = time.Time{}
+	s.lastEvict = time.Now() // a fresh cpuEvictor starts with a full cooling interval
 	for _, n := range s.order {
 		if p := s.pods[n]; p.acked {
 			p.acked = false
@@ -1006,6 +1050,7 @@ type evView struct {
 	req      int64 // bytes requested in the pod's class resource
 	reqRes   corev1.ResourceName
 	active   bool
+	beReq    int64 // batch-cpu requested (whatever the pod's class), the denominator of the BE strategy's usage ratio
 	pendCert bool // evicted (acknowledged) by this agent instance less than the TTL ago and still on the node
 	pendPoss bool
 }
@@ -1027,11 +1072,11 @@ func (a evAcc) add(typ string, rn corev1.ResourceName, v int64) {
 
 func (v *evView) addRelease(lo, hi evAcc) {
 	if lo != nil {
-		lo.add(tUsed, corev1.ResourceMemory, v.usedLo)
+		lo.add(tUsed, corev1.ResourceCPU, v.usedLo)
 		lo.add(tReq, v.reqRes, v.req)
 	}
 	if hi != nil {
-		hi.add(tUsed, corev1.ResourceMemory, v.usedHi)
+		hi.add(tUsed, corev1.ResourceCPU, v.usedHi)
 		hi.add(tReq, v.reqRes, v.req)
 	}
 }
@@ -1039,7 +1084,7 @@ func (v *evView) addRelease(lo, hi evAcc) {
 // releaseHi: the most the pod's removal can free in dimension rn of release type typ
 func (v *evView) releaseHi(typ string, rn corev1.ResourceName) int64 {
 	if typ == tUsed {
-		if rn == corev1.ResourceMemory {
+		if rn == corev1.ResourceCPU {
 			return v.usedHi
 		}
 		return 0
@@ -1053,7 +1098,7 @@ func (v *evView) releaseHi(typ string, rn corev1.ResourceName) int64 {
 // releaseLo: what the agent can know the pod's removal frees in dimension rn of release type typ
 func (v *evView) releaseLo(typ string, rn corev1.ResourceName) int64 {
 	if typ == tUsed {
-		if rn == corev1.ResourceMemory {
+		if rn == corev1.ResourceCPU {
 			return v.usedLo
 		}
 		return 0
@@ -1075,7 +1120,10 @@ func (s *evSim) view(now time.Time) map[string]*evView {
 		v := &evView{m: m, spec: m.spec, class: evClassOf(m.obj), prio: evPrioOf(m.obj), evprio: evEvPrio(&m.spec), active: s.active(m)}
 		v.reqRes = evResOfClass(v.class)
 		if q, ok := m.obj.Spec.Containers[0].Resources.Requests[v.reqRes]; ok {
-			v.req = q.Value()
+			v.req = evVal(v.reqRes, q)
+		}
+		if q, ok := m.obj.Spec.Containers[0].Resources.Requests[apiext.BatchCPU]; ok {
+			v.beReq = q.Value()
 		}
 		if m.hasSample && !m.sampleAt.Before(now.Add(-win)) {
 			v.fresh, v.usedLo, v.usedHi = true, m.sampleV, m.sampleV
@@ -1122,8 +1170,14 @@ func (s *evSim) peekTasks() []*evTask {
 		}
 		et := &evTask{feature: f, typ: string(t.ReleaseTarget), target: map[corev1.ResourceName]int64{}}
 		for rn, q := range t.ToReleaseResource {
-			if q.Value() > 0 {
-				et.target[rn] = q.Value()
+			// the used-cpu target is a cpu quantity; request targets count milli-CPUs as plain integers (also the
+			// one on plain cpu, which no pod is ever counted against)
+			x := q.Value()
+			if string(t.ReleaseTarget) == tUsed {
+				x = evVal(rn, q)
+			}
+			if x > 0 {
+				et.target[rn] = x
 			}
 		}
 		if len(et.target) > 0 {
@@ -1213,11 +1267,17 @@ func evMustPrecede(a, b *evView, feature string) bool {
 	return evKeyBefore(a, b, feature)
 }
 
-// evKeyBefore: third key of the published order. Memory: usage for the used-threshold strategies, request for the
-// allocatable strategy.
+// evKeyBefore: third key of the published order. CPU: usage/request ratio for the BE strategy (pairs with a zero
+// request are free), usage for the used-threshold strategy, request for the allocatable strategy.
 func evKeyBefore(a, b *evView, feature string) bool {
-	if feature == fAlloc {
+	switch feature {
+	case fAlloc:
 		return a.req > b.req
+	case fBE:
+		if !a.fresh || !b.fresh || a.beReq <= 0 || b.beReq <= 0 {
+			return false
+		}
+		return a.usedLo*b.beReq > b.usedLo*a.beReq
 	}
 	return a.fresh && b.fresh && a.usedLo > b.usedLo
 }
@@ -1246,7 +1306,7 @@ func (s *evSim) doRound() {
 	// cooling as the recorded history implies it (not the agent's own field)
 	cooling := !s.lastEvict.IsZero() && now.Before(s.lastEvict.Add(time.Duration(s.cfg.CoolS)*time.Second))
 
-	s.agent.memoryEvict() // the real round
+	s.agent.cpuEvict() // the real round
 
 	r.OpDone()
 	if len(s.calls) == 0 && cooling {
